@@ -68,7 +68,8 @@ package yubiattest
 //@ func verifyPKCS1v15(pub, hash, hashed, sig)
 //@   requires pub != nil && pub.N != nil && supported(hash)
 //@   modifies nothing
-//@   ensures result == nil <==> pkcsOK(pub, hash, hashed, sig)
+//@   ensures [only-if] result == nil ==> pkcsOK(pub, hash, hashed, sig)
+//@   ensures [if] pkcsOK(pub, hash, hashed, sig) ==> result == nil
 //@   loop 1:
 //@     invariant k == kOf(pub) && len(em) == k && forall(j, 0 <= j && j < k, em[j] == emAt(k, mOf(pub, sig), j))
 //@     invariant len(hashed) == hsize(hash) && hashLen == hsize(hash) && tLen1 == p1len(hash) + hsize(hash) && tLen2 == p2len(hash) + hsize(hash) && k >= tLen1 + 11
